@@ -270,6 +270,14 @@ fn check(case: &Case) -> Verdict {
     );
     v.class_if(rep.overflow, "skipped:overflow");
     v.class_if(st.branches > 0, "branch");
+    v.class_if(st.computed_mutations > 0, "computed-mutation");
+    v.class_if(st.binds[0] > 0, "and_then");
+    v.class_if(st.binds[1] > 0, "and_then_contextual");
+    v.class_if(st.binds[2] > 0, "and_then_try");
+    v.class_if(rep.quirk_sites > 0, "closure-in-same-step-as-modification");
+    v.class_if(rep.quirk_blocks > 0, "block-matched-implementation-order-only");
+    v.class_if(st.multi_step_first, "operand-mutates-in-non-final-step");
+    v.class_if(st.max_value_depth >= 2, "value-combinator-depth>=2");
     v.class_if(st.noop_removes > 0, "noop-remove");
     v.class_if(st.empty_clears > 0, "empty-clear");
     v.class_if(st.same_value_sets > 0, "same-value-set");
